@@ -59,8 +59,12 @@ def run(ctx):
     curves = ['bn254'] if quick else ['bn254', 'bls12-377', 'bw6-761']
     for curve in curves:
         recs = ctx.harness(['c10stress', '--curve', curve, '--seed', str(ctx.seed), '--rounds', '6' if quick else '20', '--goroutines', '8' if quick else '16'],
-                           timeout=3600)
-        judge_stress(ctx, recs)
+                           timeout=3600, crash_ok=True)
+        if ctx.last_crash:
+            import re as _re
+            ctx.report('stress / history driver: the real code crashed the process: %s' % _re.sub(r'\d+', 'N', ctx.last_crash)[:150], {'curve': curve, 'crash': ctx.last_crash})
+        if recs:
+            judge_stress(ctx, recs)
     if not quick:
         race = build_race()
         outp = os.path.join(ctx.scratch, 'race.out')
